@@ -24,6 +24,9 @@ class KNXIPHeader:
     def from_knx(self, data: bytes) -> int:
         """Parse/deserialize from KNX/IP raw data."""
         if len(data) < KNXIPHeader.HEADERLENGTH:
+            # more data can only complete what is a prefix of a valid header
+            if data[:1] not in (b"", b"\x06") or data[1:2] not in (b"", b"\x10"):
+                raise CouldNotParseKNXIP("wrong connection header")
             raise IncompleteKNXIPFrame("wrong connection header length")
         if data[0] != KNXIPHeader.HEADERLENGTH:
             raise CouldNotParseKNXIP("wrong connection header length")
